@@ -691,7 +691,7 @@ pub fn bfs<K, S>(
   mut keep: impl FnMut(&K, &S),
 ) -> BfsStats
 where
-  K: std::hash::Hash + Eq + Clone + Send + Sync,
+  K: std::hash::Hash + Eq + Ord + Clone + Send + Sync,
   S: Send + Sync,
 {
   use std::collections::HashMap;
@@ -754,6 +754,8 @@ where
       keep(k, s);
     }
     frontier = next.into_iter().collect();
+    // deterministic order (std's HashMap iteration order is randomised per process)
+    frontier.sort_by(|a, b| a.0.cmp(&b.0));
     for (k, _) in &frontier {
       seen.insert(hk(k));
     }
